@@ -403,3 +403,12 @@ def run(ctx):
             fn(ctx)
         except core.Cap as e:
             ctx.rule('C03.R0', 'INTERNAL', 'checker integrity').bad('cap|' + fn.__name__, '', str(e))
+
+
+_run_rules = run
+
+
+def run(ctx):
+    _run_rules(ctx)
+    from .. import boundaries
+    boundaries.check(ctx, 'C03.RB', 'C03')
